@@ -580,6 +580,8 @@ def run_case(case, ctx):
         return
     env = {"src": src, "member": member, "ver": ver, "orig": orig, "kind": kind, "dump": None, "case": case,
            "ide": case["group"] == "garbage"}
+    if case["group"] == "foreign" and not _foreign_input_ok(ctx, env):
+        return
     if case["group"] in ("transplant", "garbage"):
         # precondition: a file the loader accepts completely
         if not _loads_completely(env, ctx):
@@ -779,6 +781,9 @@ def _roundtrip(ctx, env, lazy, touch, rb, rnd):
     if touch == "all" and kind1 == "sfnt" and env["kind"] in ("sfnt", "ttc"):
         if _hb_diff(ctx, env, F1, label, rb, new):
             bad = True
+    if case["group"] == "foreign" and case["kind"] in ("cmap", "post") and touch == "all" and kind1 == "sfnt":
+        if _ft_meaning(ctx, env, F1, label):
+            bad = True
     # ---- (b) second generation ---------------------------------------------------
     g, st2, _t = _load(ctx, env, F1, lazy, rb, label + " gen2", new, touched, touch, rnd)
     F2 = _save(ctx, env, g, st2, lazy, 2)
@@ -934,6 +939,76 @@ def _struct_diff(ctx, orig, new, label):
                               "%s: spec-written reader finds a different composite glyph (%s) after load+save" % (label, what),
                               {"glyph": gid, "original": repr(x)[:400], "recompiled": repr(y)[:400]})
     return bad
+
+
+def _ft_meaning(ctx, env, F1, label):
+    """FreeType before/after: character map (every code any subtable covers) and glyph names."""
+    from vmon.gen import c01_foreign as FW
+    from vmon.oracle.hbft import FT
+
+    kind = env["case"]["kind"]
+    try:
+        a, b = FT(env["src"]), FT(F1)
+        if kind == "cmap":
+            codes = sorted({c for m in FW.read_cmap(env["orig"]["cmap"]).values() if m for c in m})
+            va = [(c, a.char_index(c)) for c in codes]
+            vb = [(c, b.char_index(c)) for c in codes]
+        else:
+            n = a.face.num_glyphs
+            va = [a.glyph_name(g) for g in range(n)]
+            vb = [b.glyph_name(g) for g in range(b.face.num_glyphs)]
+    except Exception as e:
+        ctx.note("freetype-differential-unavailable:" + type(e).__name__)
+        return False
+    ctx.judged()
+    ctx.note("freetype-differential:" + kind)
+    if va != vb:
+        i = next((k for k, (x, y) in enumerate(zip(va, vb)) if x != y), min(len(va), len(vb)))
+        ctx.violation({"kind": "ft-differential", "what": "cmap" if kind == "cmap" else "glyph names"},
+                      "%s: FreeType sees a different %s after load+save" % (label, "character map" if kind == "cmap" else "glyph name"),
+                      {"original": repr(va[i:i + 2]), "recompiled": repr(vb[i:i + 2])})
+        return True
+    return False
+
+
+def _foreign_input_ok(ctx, env):
+    """The hand-written input must mean the same to the spec-level reader, HarfBuzz and FreeType;
+    otherwise generator or oracles are at fault and the case is inconclusive, never a violation."""
+    from vmon.gen import c01_foreign as FW
+
+    kind = env["case"]["kind"]
+    try:
+        if kind == "cmap":
+            import uharfbuzz as hb
+            from vmon.oracle.hbft import FT
+
+            subs = FW.read_cmap(env["orig"]["cmap"])
+            m12 = next((m for k, m in subs.items() if k[2] == 12), None)
+            font = hb.Font(hb.Face(hb.Blob(env["src"])))
+            ft = FT(env["src"])
+            for c, g in sorted(m12.items()):
+                if font.get_nominal_glyph(c) != g or ft.char_index(c) != g:
+                    ctx.inconclusive("foreign cmap: oracles disagree on the input at U+%04X (reader %d, HarfBuzz %r, FreeType %r)"
+                                     % (c, g, font.get_nominal_glyph(c), ft.char_index(c)))
+                    return False
+            m4 = next((m for k, m in subs.items() if k[2] == 4), None)
+            if m4 != {c: g for c, g in m12.items() if c < 0x10000}:
+                ctx.inconclusive("foreign cmap: format 4 and format 12 subtables written with different BMP meaning")
+                return False
+        elif kind == "post":
+            from vmon.oracle.hbft import FT
+
+            names = FW.read_post(env["orig"]["post"], _std_names())
+            ft = FT(env["src"])
+            got = [ft.glyph_name(g) for g in range(len(names))]
+            if got != names:
+                ctx.inconclusive("foreign post: FreeType reads other glyph names from the input than the spec-level reader")
+                return False
+    except Exception as e:
+        ctx.inconclusive("foreign input self-check failed: %r" % (e,))
+        return False
+    ctx.note("foreign-input-agreed-by-oracles:" + kind)
+    return True
 
 
 def _cmap4_unterminated(data):
